@@ -88,7 +88,7 @@ CHECKS["C04"] = {
                        "cstruct.py:cstruct._make_array", "cstruct.py:cstruct._make_pointer",
                        "expression.py:Expression.evaluate"],
     "required_cells": ["align:True", "align:False", "alignclass:1", "alignclass:2", "alignclass:4", "alignclass:8",
-                       "alignclass:16", "mixed-modes:aligned-offset", "mixed-modes:unaligned-offset", "empty-structures", "explicit-forward-offsets",
+                       "alignclass:16", "mixed-modes:aligned-offset", "mixed-modes:unaligned-offset", "empty-structures", "explicit-forward-offsets", "declared-after-extension",
                        "sizeof-of-names:alias", "sizeof-of-names:other", "sizeof-of-names:also-a-member", "custom-type-alignment"],
     "assumptions": ASSUME_COMMON,
 }
@@ -110,7 +110,7 @@ CHECKS["C06"] = {
     "required_cells": ["straddle", "aligned", "feat:bits:signed", "feat:bits:enum", "feat:bits:wide",
                        "exh:uint8:<:compiled", "exh:uint8:>:interpreted", "exh:int8:>:compiled",
                        "exh:int8:<:interpreted", "char-units:compiled", "char-units:interpreted", "union-bit-fields",
-                       "single-bit-field-structures", "enum-vs-base-bit-fields",
+                       "single-bit-field-structures", "enum-vs-base-bit-fields", "width-twins:compiled", "width-twins:interpreted",
                        "endian-switched-after-load:compiled", "endian-switched-after-load:interpreted"],
     "exhaustive": {"quick": False, "thorough": False},
     "assumptions": ASSUME_COMMON,
@@ -152,7 +152,8 @@ CHECKS["C08"] = {
                        "types/structure.py:UnionMetaType._read", "<compiled>"],
     "required_cells": ["structure-ends-in-a-counted-array", "align:True", "align:False", "compiled:True", "compiled:False", "dynamic-union", "feat:union",
                        "feat:bits", "direct-types",
-                       "eof-elements:struct", "eof-elements:int24", "eof-elements:uleb128", "single-char-member-at-offset"],
+                       "eof-elements:struct", "eof-elements:int24", "eof-elements:uleb128", "single-char-member-at-offset",
+                       "long-leb128", "long-array:direct", "long-array:counted-tail", "long-array:counted-middle"],
     "assumptions": ASSUME_COMMON + ["faults are injected at read() calls of file-like streams; bytes inputs are "
                                     "covered through the cut points"],
 }
@@ -218,7 +219,8 @@ CHECKS["C10"] = {
                        "expression.py:ExpressionTokenizer.tokenize", "types/base.py:BaseArray._read",
                        "parser.py:TokenParser._enum", "parser.py:TokenParser._constant"],
     "required_cells": ["exhaustive", "random", "literal-forms", "in-situ", "c-compiler", "identifier-spellings",
-                       "character-valued-names"],
+                       "character-valued-names", "length-expression:flat", "length-expression:eof-rows", "length-expression:fixed-rows",
+                       "length-expression:counted-rows", "length-expression:name-between-sizeof-and-a-later-parenthesis"],
     "exhaustive": {"quick": False, "thorough": False},
     "assumptions": ASSUME_COMMON + ["the reference evaluator vf/refexpr.py is the C-precedence specification"],
 }
@@ -281,7 +283,7 @@ CHECKS["C19"] = {
                        "utils.py:pack", "utils.py:unpack", "utils.py:swap", "utils.py:p8", "utils.py:u64",
                        "utils.py:swap16", "utils.py:swap32", "utils.py:swap64"],
     "required_cells": ["len%16=0", "len%16=1", "len%16=15", "palette:zeros", "palette:long", "palette:short",
-                       "palette:lineends", "dumpstruct:bits", "dumpstruct:plain", "pack:network", "pack:!", "pack:<", "pack:odd-width", "dumpstruct:forms", "dumpstruct:after-assignment", "dumpstruct:after-extension", "swap:width-not-a-multiple-of-8"],
+                       "palette:lineends", "dumpstruct:bits", "dumpstruct:plain", "dumpstruct:display-offset", "pack:network", "pack:!", "pack:<", "pack:odd-width", "dumpstruct:forms", "dumpstruct:after-assignment", "dumpstruct:after-extension", "swap:width-not-a-multiple-of-8"],
     "assumptions": ASSUME_COMMON,
 }
 
@@ -426,7 +428,7 @@ CHECKS["C14"] = {
     "required_reach": ["types/structure.py:_generate_structure__init__", "types/structure.py:StructureMetaType.__call__",
                        "types/base.py:BaseArray.__default__", "types/base.py:MetaType.__default__",
                        "cstruct.py:cstruct.add_type", "types/packed.py:_struct"],
-    "required_cells": ["failed-length-evaluations", "alias-used-before-its-target-is-re-bound",
+    "required_cells": ["failed-length-evaluations", "alias-used-before-its-target-is-re-bound", "failed-dumps",
                        "op:default", "op:keyword", "op:mutate", "op:parse", "op:failparse", "op:endian", "op:load",
                        "op:add_type", "two-cstructs-same-names", "load-histories", "load-histories:align",
                        "load-histories:compiled",
